@@ -234,6 +234,14 @@ func runC17(r *Run) {
 		r.check(len(add) >= 1, "replay:headers-additive", r.fpos(c.lookup), "headers are replayed with Add (multi-valued headers survive)", "headers are replayed with a replacing setter: multi-valued headers collapse")
 	})
 
+	r.rule("R12", "what the caller configured is kept: on the caller's configuration configDefault assigns a field only behind a test of that same field — a Lock supplied without a Storage stays the caller's Lock (it may be shared between instances, or fail on purpose) (E1)", func() {
+		defaultsOnlyForUnsetRule(r, idemPkg, "idempotency", 5)
+	})
+
+	r.rule("R11", "the headers of the stored answer are the headers of the first answer: the handler hands the response-header binder the map it stores, not a pointer to it (a pointer makes the binder split header values at commas under EnableSplittingOnParsers) (E8, type-level)", func() {
+		bindMapByValueRule(r, idemPkg, 1)
+	})
+
 	r.rule("R10", "the list of headers to keep is matched in one spelling: the names put into the keep set and the names looked up in it go through a case fold of the same kind (lower case on both sides, or the canonical MIME form on both sides) — with DisableHeaderNormalizing a response header is spelled as the handler wrote it (E5, writer and reader agree)", func() {
 		f := r.Fn(idemPkg, "New")
 		class := func(key ssa.Value) string {
@@ -266,7 +274,7 @@ func runC17(r *Run) {
 			st, ok := m.Elem().Underlying().(*types.Struct)
 			return ok && st.NumFields() == 0
 		}
-		writes, reads := map[string]string{}, map[string]string{}
+		writes, reads, direct := map[string]string{}, map[string]string{}, map[string]string{}
 		// New, its closures, and the helpers they call (the filter loop may live in a function of its own)
 		scope := append([]*ssa.Function{f}, anonFuncsDeep(f)...)
 		seenFn := map[*ssa.Function]bool{}
@@ -292,10 +300,21 @@ func runC17(r *Run) {
 					case *ssa.Lookup:
 						if isSet(x.X.Type()) {
 							reads[class(x.Index)] = r.pos(in)
+						} else if mt, ok := x.X.Type().Underlying().(*types.Map); ok && mt.Elem().String() == "[]string" &&
+							dependsOn(x.Index, func(v ssa.Value) bool { return loadOfField(v, "idempotency.Config.KeepResponseHeaders") }) != nil {
+							// the other way round: the response's header map asked with a configured name
+							direct[class(x.Index)] = r.pos(in)
 						}
 					}
 				}
 			}
+		}
+		if len(direct) > 0 {
+			for _, cls := range sortedKeys(direct) {
+				r.check(cls == "canonical MIME form", "New:kept-name-asked-of-the-response:"+cls, direct[cls], "the response's headers are asked with the canonical form of the configured name",
+					"the response's header map (keyed by fasthttp's canonical spelling) is asked with a configured name "+cls+": `KeepResponseHeaders: {\"X-Request-ID\"}` never finds `X-Request-Id`, the header is not stored and every replay lacks it")
+			}
+			return
 		}
 		r.need(len(writes) > 0 && len(reads) > 0, "New fills a set of header names and looks names up in it")
 		ok := len(writes) == 1 && len(reads) == 1
